@@ -137,7 +137,9 @@ def run(ctx: core.Ctx):
                 "empty / case-changed / padded enum, other method or arrangement, wrong nesting or coordinates, load-list lengths and element "
                 "types, extra keys) of every field of every section of four valid files, plus non-JSON text; command line: a sample of these "
                 "with --validate-only and with an output directory, the option matrix (--convert IDF/XYZ/'', no output directory, non-existent "
-                "input, unknown option, --version, --help), each design-run step raising, and real processes; distinct = distinct "
+                "input, unknown option, --version, --help), each design-run step raising, ten real design runs on valid inputs (feasible; search failing for loads too large / too small / zero with and "
+                "without continue_if_design_unmet; design step raising) with the predicate exit 0 <=> the six output files exist, and real processes "
+                "(incl. an infeasible design with and without the continue flag); distinct = distinct "
                 "(file content, arguments); non-trivial = all")
     ctx.trusted_base += [
         "translator translate/gen_config.py (callback path table, click parameters, validator table, schemas, worker operations)",
@@ -152,11 +154,14 @@ def run(ctx: core.Ctx):
     import ghedesigner
 
     ctx.extra["implementation"] = str(Path(ghedesigner.__file__).parent)
-    ctx.lean_prepare()
+    if not ctx.lean_prepare():
+        # a generator that left its supported subset (or a proof that no longer builds) is recorded in ctx.broken; the
+        # compiled driver of the last good build still answers, so every stream below runs and looks for a failing input
+        ctx.log("Lean side not up to date:", "; ".join(ctx.broken[:3]), "- continuing with the differential and predicate streams")
     tmp = Path(tempfile.mkdtemp(prefix="c18_", dir=os.environ.get("TMPDIR", "/tmp")))
     try:
         import time
-        for name, fn in (("validation", _validation), ("options", _options), ("processes", _processes)):
+        for name, fn in (("validation", _validation), ("options", _options), ("design_outcomes", _design_outcomes), ("processes", _processes)):
             t = time.time()
             fn(ctx, tmp)
             ctx.extra[name + "_s"] = round(time.time() - t, 1)
@@ -336,6 +341,109 @@ def _options(ctx, tmp):
         k += 1
 
 
+OUTPUT_FILES = ["BoreFieldData.csv", "Gfunction.csv", "Loadings.csv", "SimulationSummary.json", "SimulationSummary.txt", "TimeDependentValues.csv"]
+
+
+def outcome_documents():
+    """Schema-valid inputs whose design run ends in every way it can: a design is found; the search fails because the
+    loads are far too large / far too small / zero for the land (with, without and with a false continue flag); the
+    design step raises something else (a RowWise lot narrower than the spacing; a near-square spacing of 0)."""
+    import ghelib
+
+    _, doc = cl.base_documents()[0]
+    atl = ghelib.atlanta_loads()
+
+    def near(scale, length=20.0, cont=None, b=5.0):
+        d = json.loads(json.dumps(doc))
+        d["simulation"] = {"num_months": 12}
+        d["geometric_constraints"].update(length=length, b=b)
+        d["design"].pop("max_boreholes", None)
+        d["design"].pop("continue_if_design_unmet", None)
+        if cont is not None:
+            d["design"]["continue_if_design_unmet"] = cont
+        d["loads"]["ground_loads"] = [x * scale for x in atl]
+        return d
+
+    rw = json.loads(json.dumps(cl.base_documents()[1][1]))
+    rw["simulation"] = {"num_months": 12}
+    rw["geometric_constraints"]["property_boundary"] = [[0, 0], [2.0, 0], [2.0, 1.0], [0, 1.0]]
+    rw["geometric_constraints"]["no_go_boundaries"] = []
+    rw["loads"]["ground_loads"] = [x * 0.25 for x in atl]
+    return [
+        ("feasible", near(0.25, 60.0)),
+        ("infeasible-loads-50x", near(50.0)),
+        ("infeasible-loads-50x-continue-false", near(50.0, cont=False)),
+        ("infeasible-loads-50x-continue-true", near(50.0, cont=True)),
+        ("infeasible-loads-400x-larger-lot", near(400.0, 40.0)),
+        ("infeasible-loads-tiny", near(1e-7)),
+        ("infeasible-loads-tiny-continue-true", near(1e-7, cont=True)),
+        ("infeasible-loads-zero", near(0.0)),
+        ("design-step-raises-rowwise-narrow-lot", rw),
+        ("design-step-raises-zero-spacing", near(0.25, 60.0, b=0.0)),
+    ]
+
+
+def _outcome_worker(job):
+    """One real design run through the click command, in-process, nothing stubbed."""
+    import io
+    import warnings
+
+    warnings.filterwarnings("ignore")
+    label, doc, workdir = job
+    from click.testing import CliRunner
+
+    from ghedesigner import manager as mgr_mod
+
+    wd = Path(workdir)
+    p = wd / f"oc_{label}.json"
+    out = wd / f"oc_out_{label}"
+    _write(p, doc)
+    buf = io.StringIO()
+    saved = mgr_mod.stderr
+    mgr_mod.stderr = buf
+    try:
+        with cl.silent():
+            r = CliRunner().invoke(mgr_mod.run_manager_from_cli, [str(p), str(out)])
+    finally:
+        mgr_mod.stderr = saved
+    exc = f"{type(r.exception).__name__}: {r.exception}"[:160] if r.exception is not None and not isinstance(r.exception, SystemExit) else None
+    present = sorted(f.name for f in out.glob("*")) if out.exists() else []
+    rv = cl.real_validate(p)
+    return {"label": label, "exit": r.exit_code, "exc": exc, "files": present, "validate": list(rv[:2]), "stderr": buf.getvalue()[-200:]}
+
+
+def _design_outcomes(ctx, tmp):
+    """The property's last clause on real design runs: exit status 0 <=> the output files were written."""
+    docs = outcome_documents()
+    res = core.pool_map(_outcome_worker, [(label, d, str(tmp)) for label, d in docs], workers=len(docs))
+    lines = []
+    for (label, d), r in zip(docs, res):
+        wrote = all(f in r["files"] for f in OUTPUT_FILES)
+        # whether the design run produced a design is an outcome of the numerical search, handed to the model as a fact
+        lines.append(_model_cli(False, None, True, True, [] if wrote else ["find_design"], cl.enc(d)))
+    out = ctx.driver(lines)
+    for i, ((label, d), r) in enumerate(zip(docs, res)):
+        wrote = all(f in r["files"] for f in OUTPUT_FILES)
+        ctx.case(("design-outcome", label), True, {"design_outcome": label, "exit": r["exit"], "files": len(r["files"]), "exception": r["exc"]} if i in (1, 3) else None)
+        ctx.count(f"design-outcome:exit{r['exit']}:{'outputs' if wrote else 'no-outputs'}")
+        replay = {"run": "ghedesigner <input> <output dir> (real design run, in-process through click)", "label": label, "exit": r["exit"], "files": r["files"],
+                  "exception": r["exc"], "stderr": r["stderr"], "input_without_loads": {k: v for k, v in d.items() if k != "loads"},
+                  "loads": "Atlanta office hourly loads x scale, see harness/c18.py outcome_documents"}
+        if tuple(r["validate"]) != ("ok", 0):
+            ctx.infra(f"design-outcome input {label} is not schema-valid: {r['validate']}")
+            continue
+        if (r["exit"] == 0) != wrote:
+            ctx.finding(f"exit:design-outcome:{label}:exit{r['exit']}:{'outputs' if wrote else 'no-outputs'}",
+                        f"valid input `{label}` run with an output directory: exit status {r['exit']} but output files written = {r['files'] or 'none'} "
+                        f"(exception {r['exc']}; stderr {r['stderr'].strip()[-100:]!r}); the status must be 0 exactly when the six output files exist", replay)
+        if label.endswith("continue-true") and not wrote:
+            ctx.finding(f"exit:design-outcome:{label}:no-outputs", f"`{label}`: continue_if_design_unmet=true but no output was written (exit {r['exit']}, {r['exc']})", replay)
+        if out is not None:
+            toks = out[i].split()
+            if toks[0] != "exit" or int(toks[1]) != r["exit"] or (toks[2] == "t") != wrote:
+                _broken(ctx, "design-outcome-correspondence", {"label": label, "impl_exit": r["exit"], "impl_files": r["files"], "impl_exc": r["exc"], "model": " ".join(toks[:3])})
+
+
 # --------------------------------------------------------------------------------------------- real processes
 def _proc(args, cwd):
     code = ("import sys; sys.path.insert(0, %r); from ghedesigner.manager import run_manager_from_cli; run_manager_from_cli()" % str(core.REPO))
@@ -379,6 +487,10 @@ def _processes(ctx, tmp):
     lower["design"]["flow_type"] = "borehole"
     lowerp = tmp / "p_lower.json"
     _write(lowerp, lower)
+    odocs = dict(outcome_documents())
+    infp, infcp = tmp / "p_infeasible.json", tmp / "p_infeasible_continue.json"
+    _write(infp, odocs["infeasible-loads-50x"])
+    _write(infcp, odocs["infeasible-loads-50x-continue-true"])
     out1, out2 = tmp / "p_out1", tmp / "p_out2"
     jobs = [
         ("full-run", [str(good), str(out1)], str(tmp)),
@@ -393,12 +505,14 @@ def _processes(ctx, tmp):
         ("nonexistent-input", [str(tmp / "nope.json"), str(tmp / "p_out6")], str(tmp)),
         ("unknown-option", ["--frobnicate", str(good)], str(tmp)),
         ("version", ["--version"], str(tmp)),
+        ("infeasible", [str(infp), str(tmp / "p_out7")], str(tmp)),
+        ("infeasible-continue", [str(infcp), str(tmp / "p_out8")], str(tmp)),
     ]
     res = core.pool_map(_proc_worker, jobs, workers=len(jobs))
     got = {r[0]: r for r in res}
     expect = {"full-run": 0, "full-run-lower-case-names": 0, "validate-only-valid": 0, "validate-only-invalid": 1, "validate-only-100-loads": 1, "run-invalid": 1,
-              "run-100-loads": 1, "no-outdir": 1, "convert-XYZ": 1, "nonexistent-input": 2, "unknown-option": 2, "version": 0}
-    files = ["SimulationSummary.json", "BoreFieldData.csv", "Gfunction.csv", "Loadings.csv", "TimeDependentValues.csv"]
+              "run-100-loads": 1, "no-outdir": 1, "convert-XYZ": 1, "nonexistent-input": 2, "unknown-option": 2, "version": 0, "infeasible": 1, "infeasible-continue": 0}
+    files = OUTPUT_FILES
     model_lines = {
         "full-run": _model_cli(False, None, True, True, [], cl.enc(cl.compress_loads(doc))),
         "full-run-lower-case-names": _model_cli(False, None, True, True, [], cl.enc(cl.compress_loads(lower))),
@@ -410,6 +524,8 @@ def _processes(ctx, tmp):
         "no-outdir": _model_cli(False, None, False, True, [], cl.enc(cl.compress_loads(doc))),
         "convert-XYZ": _model_cli(False, "XYZ", True, True, [], cl.enc(cl.compress_loads(doc))),
         "nonexistent-input": "cli usage", "unknown-option": "cli usage", "version": "cli eager version",
+        "infeasible": _model_cli(False, None, True, True, ["find_design"], cl.enc(odocs["infeasible-loads-50x"])),
+        "infeasible-continue": _model_cli(False, None, True, True, [], cl.enc(odocs["infeasible-loads-50x-continue-true"])),
     }
     labels = list(model_lines)
     out = ctx.driver([model_lines[l] for l in labels])
@@ -420,8 +536,12 @@ def _processes(ctx, tmp):
         if code is None:
             ctx.infra(f"process {label} timed out")
             continue
-        outdir = {"full-run": out1, "full-run-lower-case-names": out2}.get(label)
+        outdir = {"full-run": out1, "full-run-lower-case-names": out2, "infeasible": tmp / "p_out7", "infeasible-continue": tmp / "p_out8"}.get(label)
         wrote = outdir is not None and all((outdir / f).exists() for f in files)
+        if outdir is not None and (code == 0) != wrote:
+            ctx.finding(f"exit:process:{label}:exit{code}:{'outputs' if wrote else 'no-outputs'}",
+                        f"real process `{label}` (valid input, output directory given) exited {code} with output files written = {wrote}", {"process": label, "stderr": se[-300:]})
+            continue
         replay = {"process": label, "stderr": se[-300:]}
         if code != expect[label] or (label.startswith("full-run") and not wrote):
             if label.startswith("full-run") and code != 0 and "Error" in se and "validation" not in se.lower():
@@ -434,7 +554,7 @@ def _processes(ctx, tmp):
             ctx.finding(f"exit:process:{label}:exit{code}", f"real process `{label}` exited {code} (outputs written: {wrote}), expected {expect[label]}", replay)
         if out is not None:
             toks = out[i].split()
-            if int(toks[1]) != code or ((toks[2] == "t") != wrote and label.startswith("full-run")):
+            if int(toks[1]) != code or ((toks[2] == "t") != wrote and outdir is not None):
                 _broken(ctx, "process-correspondence", {"process": label, "impl_exit": code, "impl_wrote": wrote, "model": " ".join(toks[:3])})
     # --convert IDF on the results of the full run (results summary + Gfunction.csv next to it), and where nothing can be converted
     if (out1 / "SimulationSummary.json").exists():
